@@ -137,14 +137,14 @@ def render(w, appdir):
             refs.append(r)
             uses_app = uses_app or own["kind"] == "appdep"
             if own["method"] in ("ref", "output"):
-                args.append(r)
+                args.extend([r] * w.get("mentions", 1))
         up = c["up"]
         if i < n and up["kind"] != "none":
             prod = names[i] if up["rel"] else "stage%d.%s" % (stage_of(w, i + 1), names[i])
             r = "%s/%s.txt:%s" % (prod, FNAME[up["fname"]], up["method"]) if up["kind"] == "pfile" else "%s:%s" % (prod, up["method"])
             refs.append(r)
             if up["method"] in ("ref", "output"):
-                args.append(r)
+                args.extend([r] * w.get("mentions", 1))
         exe = EXE[c["exe"]]
         if c["exeVia"] == "comp":
             variables["tool"] = exe
